@@ -105,3 +105,47 @@ Theorem C17_select_key_is_projection : forall uni eng fuel inv q us pinv pme u1 
   = do_ident k (VSlice EAny isnil xs).
 Proof. exact select_key_is_projection. Qed.
 Print Assumptions C17_select_key_is_projection.
+
+(** End to end (Proofs/E2E3.v): whole queries over documents in ANY carriers: aggregates over a key
+    stepped across rows (`$.xs.k.Sum()`, exact in Q; Minimum / Maximum; Average within half a unit of
+    the 16th place), over an array with literal / path / spread-array arguments, the aggregate identity
+    (stepped key = Select("$.k") = the same numbers given directly, Average included), AnyOf with spread
+    arguments of mixed kinds.  [rows_doc] / [nums_doc] / [args_values] bundle the hypotheses. *)
+From Coq Require Import QArith Qabs.
+From Mpath.Proofs Require C04 C06 C06b E2E E2E2 E2E3.
+Import Mpath.Proofs.C06 Mpath.Proofs.C06b Mpath.Proofs.E2E Mpath.Proofs.E2E2 Mpath.Proofs.E2E3.
+
+Theorem C17_E2E3_sum_stepped :
+  forall (uni : uclass) (eng : engines) (fuel : nat) (cur : gv) (xinv xme xq1 : bool) (xu1 : str) (xq2 : bool) (xu2 : str) (xfinv : bool) (xfu xus a k : str) (doc arr : gv) (rows gs : list gv) (ds : list dec) (qs : list Q), rows_doc a k doc arr rows gs ds qs -> rows <> [] -> (is_nil arr = true -> xq1 = true) -> (exists r : dec, eval uni eng (S (S (S (S (S (S (S fuel))))))) (NPath (stepped_path xinv xme a xq1 xu1 k xq2 xu2 xfinv "Sum" xfu xus)) cur doc = Ok (VDec r) /\ DecQ.dval r == sumQ qs) /\ (exists r : dec, eval uni eng (S (S (S (S (S (S (S fuel))))))) (NPath (stepped_path xinv xme a xq1 xu1 k xq2 xu2 xfinv "Minimum" xfu xus)) cur doc = Ok (VDec r) /\ least_of (DecQ.dval r) qs) /\ (exists r : dec, eval uni eng (S (S (S (S (S (S (S fuel))))))) (NPath (stepped_path xinv xme a xq1 xu1 k xq2 xu2 xfinv "Maximum" xfu xus)) cur doc = Ok (VDec r) /\ greatest_of (DecQ.dval r) qs) /\ (exists r : dec, eval uni eng (S (S (S (S (S (S (S fuel))))))) (NPath (stepped_path xinv xme a xq1 xu1 k xq2 xu2 xfinv "Average" xfu xus)) cur doc = Ok (VDec r) /\ Qabs (DecQ.dval r - meanQ qs) <= half_unit).
+Proof. exact Mpath.Proofs.E2E3.E2E3_sum_stepped. Qed.
+Print Assumptions C17_E2E3_sum_stepped.
+
+Theorem C17_E2E3_sum_stepped_empty :
+  forall (uni : uclass) (eng : engines) (fuel : nat) (cur : gv) (xinv xme xq1 : bool) (xu1 : str) (xq2 : bool) (xu2 : str) (xfinv : bool) (xfu xus a k : str) (F : string) (doc arr : gv), In F agg_names -> obj_row a doc arr -> elems arr = Some [] -> eval uni eng (S (S (S (S (S (S (S fuel))))))) (NPath (stepped_path xinv xme a xq1 xu1 k xq2 xu2 xfinv F xfu xus)) cur doc = (if is_nil arr && negb xq1 then Err (EOther "cannot access property of nil value") else if xq2 then Ok (VDec dzero) else Err EKeyNotFound).
+Proof. exact Mpath.Proofs.E2E3.E2E3_sum_stepped_empty. Qed.
+Print Assumptions C17_E2E3_sum_stepped_empty.
+
+Theorem C17_E2E3_sum_direct_with_arguments :
+  forall (uni : uclass) (eng : engines) (fuel : nat) (cur : gv) (cinv cme cq : bool) (cu1 cu2 cu3 : str) (cfinv : bool) (b : str) (ps : list param) (doc arr : gv) (gs : list gv) (ds : list dec) (qs : list Q) (dsp : list dec) (qsp : list Q), nums_doc b doc arr gs ds qs -> args_values doc ps dsp qsp -> (exists r : dec, eval uni eng (S (S (S (S (S (S (S fuel))))))) (NPath (call_path cinv cme b cq cu1 cfinv "Sum" ps cu2 cu3)) cur doc = Ok (VDec r) /\ DecQ.dval r == sumQ qs + sumQ qsp) /\ (qs ++ qsp <> [] -> (exists r : dec, eval uni eng (S (S (S (S (S (S (S fuel))))))) (NPath (call_path cinv cme b cq cu1 cfinv "Minimum" ps cu2 cu3)) cur doc = Ok (VDec r) /\ least_of (DecQ.dval r) (qs ++ qsp)) /\ (exists r : dec, eval uni eng (S (S (S (S (S (S (S fuel))))))) (NPath (call_path cinv cme b cq cu1 cfinv "Maximum" ps cu2 cu3)) cur doc = Ok (VDec r) /\ greatest_of (DecQ.dval r) (qs ++ qsp)) /\ (exists r : dec, eval uni eng (S (S (S (S (S (S (S fuel))))))) (NPath (call_path cinv cme b cq cu1 cfinv "Average" ps cu2 cu3)) cur doc = Ok (VDec r) /\ Qabs (DecQ.dval r - meanQ (qs ++ qsp)) <= half_unit)).
+Proof. exact Mpath.Proofs.E2E3.E2E3_sum_direct_with_arguments. Qed.
+Print Assumptions C17_E2E3_sum_direct_with_arguments.
+
+Theorem C17_E2E3_aggregate_identity :
+  forall (uni : uclass) (eng : engines) (fuel : nat) (cur : gv) (xinv xme xq1 : bool) (xu1 : str) (xq2 : bool) (xu2 : str) (xfinv : bool) (xfu xus : str) (sinv sme sq1 : bool) (su1 : str) (ssinv : bool) (qstr ssu : str) (sfinv : bool) (sfu sus : str) (pinv pme pq : bool) (pu pus : str) (cinv cme cq : bool) (cu1 cu2 cu3 : str) (cfinv : bool) (a k b : str) (F : string) (doc arr : gv) (rows gs : list gv) (ds : list dec) (qs : list Q) (arrn : gv) (gsn : list gv) (dsn : list dec) (qsn : list Q), In F agg_names -> parse_string uni qstr = Ok (TopP (key_path pinv pme k pq pu pus)) -> rows_doc a k doc arr rows gs ds qs -> rows <> [] -> (is_nil arr = true -> xq1 = true) -> nums_doc b doc arrn gsn dsn qsn -> Forall2 Qeq qs qsn -> exists r r' : dec, eval uni eng (S (S (S (S (S (S (S fuel))))))) (NPath (stepped_path xinv xme a xq1 xu1 k xq2 xu2 xfinv F xfu xus)) cur doc = Ok (VDec r) /\ eval uni eng (S (S (S (S (S (S (S fuel))))))) (NPath (select_path sinv sme a sq1 su1 ssinv qstr ssu sfinv F sfu sus)) cur doc = Ok (VDec r) /\ eval uni eng (S (S (S (S (S (S (S fuel))))))) (NPath (call_path cinv cme b cq cu1 cfinv F [] cu2 cu3)) cur doc = Ok (VDec r') /\ DecQ.dval r == DecQ.dval r'.
+Proof. exact Mpath.Proofs.E2E3.E2E3_aggregate_identity. Qed.
+Print Assumptions C17_E2E3_aggregate_identity.
+
+Theorem C17_E2E3_stepped_storage_invariant :
+  forall (uni : uclass) (eng : engines) (fuel : nat) (cur : gv) (xinv xme xq1 : bool) (xu1 : str) (xq2 : bool) (xu2 : str) (xfinv : bool) (xfu xus a k : str) (F : string) (doc doc' arr arr' : gv) (rows rows' gs gs' : list gv) (ds ds' : list dec) (qs qs' : list Q), In F agg_names -> rows_doc a k doc arr rows gs ds qs -> rows_doc a k doc' arr' rows' gs' ds' qs' -> rows <> [] -> (is_nil arr = true -> xq1 = true) -> (is_nil arr' = true -> xq1 = true) -> Forall2 Qeq qs qs' -> exists r r' : dec, eval uni eng (S (S (S (S (S (S (S fuel))))))) (NPath (stepped_path xinv xme a xq1 xu1 k xq2 xu2 xfinv F xfu xus)) cur doc = Ok (VDec r) /\ eval uni eng (S (S (S (S (S (S (S fuel))))))) (NPath (stepped_path xinv xme a xq1 xu1 k xq2 xu2 xfinv F xfu xus)) cur doc' = Ok (VDec r') /\ DecQ.dval r == DecQ.dval r'.
+Proof. exact Mpath.Proofs.E2E3.E2E3_stepped_storage_invariant. Qed.
+Print Assumptions C17_E2E3_stepped_storage_invariant.
+
+Theorem C17_E2E3_anyof :
+  forall (uni : uclass) (eng : engines) (fuel : nat) (cur : gv) (cinv cme cq : bool) (cu1 cu2 cu3 : str) (cfinv : bool) (n : str) (ps : list param) (doc gn : gv) (dn : dec) (qn : Q) (dsp : list dec) (qsp : list Q), obj_row n doc gn -> num_carrier gn dn -> has_source gn qn -> args_values doc ps dsp qsp -> decides (eval uni eng (S (S (S (S (S (S (S fuel))))))) (NPath (call_path cinv cme n cq cu1 cfinv "AnyOf" ps cu2 cu3)) cur doc) (exists q : Q, In q qsp /\ q == qn).
+Proof. exact Mpath.Proofs.E2E3.E2E3_anyof. Qed.
+Print Assumptions C17_E2E3_anyof.
+
+Theorem C17_E2E3_anyof_mixed :
+  forall (uni : uclass) (eng : engines) (fuel : nat) (cur : gv) (cinv cme cq : bool) (cu1 cu2 cu3 : str) (cfinv : bool) (n : str) (ps : list param) (rss : list (list rparam)) (doc gn : gv) (dn : dec), obj_row n doc gn -> num_carrier gn dn -> Forall2 (arg_spreads doc) ps rss -> eval uni eng (S (S (S (S (S (S (S fuel))))))) (NPath (call_path cinv cme n cq cu1 cfinv "AnyOf" ps cu2 cu3)) cur doc = Ok (vbool (existsb (deq dn) (numbers (concat rss)))).
+Proof. exact Mpath.Proofs.E2E3.E2E3_anyof_mixed. Qed.
+Print Assumptions C17_E2E3_anyof_mixed.
